@@ -106,3 +106,37 @@ Proof.
     apply Rmult_le_compat_r; [left; exact Hi|exact Hn].
 Qed.
 Print Assumptions overflow_guard_bound.
+
+(* (8) the second antiderivative at negative arguments.  Square and rectangle cells that straddle the diagonal
+   (0 <= t1 < delta) evaluate eta_function at t1 - delta < 0; square_cell / rectangle_cell above hold there with the
+   second antiderivative continued to the whole line.  At the level of the kernel that continuation is
+   eta(-t) = conj(eta(t)): the real part (1 - cos wt)/w^2 is even, the imaginary part (sin wt - wt)/w^2 is odd --
+   and NOT eta(|t|): looking the function up at |t| (the variant a seeded change introduced into
+   correlation_2d_integral) gives the wrong sign to the imaginary part for every w > 0 and t < 0. *)
+Theorem eta_kernel_reflection :
+  forall w t : R,
+    (1 - cos (w * - t)) / (w * w) = (1 - cos (w * t)) / (w * w) /\
+    (sin (w * - t) - w * - t) / (w * w) = - ((sin (w * t) - w * t) / (w * w)).
+Proof.
+  intros w t. replace (w * - t) with (- (w * t)) by ring. rewrite cos_neg, sin_neg. split; [reflexivity|].
+  unfold Rdiv. ring.
+Qed.
+Print Assumptions eta_kernel_reflection.
+
+Theorem eta_abs_lookup_refuted :
+  forall w t : R, 0 < w -> t < 0 ->
+    (sin (w * Rabs t) - w * Rabs t) / (w * w) <> (sin (w * t) - w * t) / (w * w).
+Proof.
+  intros w t Hw Ht. rewrite (Rabs_left t Ht).
+  destruct (eta_kernel_reflection w t) as [_ H]. rewrite H. clear H.
+  assert (Hx : 0 < w * - t) by (apply Rmult_lt_0_compat; lra).
+  pose proof (sin_lt_x (w * - t) Hx) as Hs.
+  replace (w * - t) with (- (w * t)) in Hs by ring. rewrite sin_neg in Hs.
+  assert (Hne : sin (w * t) - w * t <> 0) by lra.
+  assert (Hww : 0 < w * w) by (apply Rmult_lt_0_compat; assumption).
+  intros E.
+  assert (E2 : (sin (w * t) - w * t) / (w * w) = 0) by lra.
+  apply Hne. unfold Rdiv in E2. apply Rmult_integral in E2. destruct E2 as [E2|E2]; [exact E2|].
+  exfalso. apply (Rinv_neq_0_compat (w * w)); [lra|exact E2].
+Qed.
+Print Assumptions eta_abs_lookup_refuted.
